@@ -207,9 +207,30 @@ func setup() {
 	})
 }
 
-func impl(ops []string) []string {
+var (
+	verdictMu   sync.Mutex
+	verdictHist = map[string]int{}
+)
+
+// countVerdicts records the verdict classes of a run for the evidence file (which rejection classes were exercised).
+func countVerdicts(outs []string) {
+	verdictMu.Lock()
+	defer verdictMu.Unlock()
+	for _, o := range outs {
+		f := strings.Fields(o)
+		switch {
+		case len(f) >= 3 && f[0] == "hash":
+			verdictHist[strings.Join(f[2:], " ")]++
+		case len(f) >= 1 && (f[0] == "ok" || f[0] == "reject"):
+			verdictHist[o]++
+		}
+	}
+}
+
+func impl(ops []string) (outs []string) {
+	defer func() { countVerdicts(outs) }()
 	setup()
-	outs := make([]string, len(ops))
+	outs = make([]string, len(ops))
 	var cur *spec
 	inited := false
 	for i, op := range ops {
@@ -707,10 +728,19 @@ func main() {
 		ID: "C30", Model: "C30", Gen: gen, Impl: impl, Oracle: oracle, Serial: true,
 		Cases: func(th bool) int {
 			if th {
-				return 3000
+				return 2000
 			}
 			return 120
 		},
 		Fixed: fixed(),
+		Extra: func() map[string]interface{} {
+			verdictMu.Lock()
+			defer verdictMu.Unlock()
+			m := map[string]interface{}{}
+			for k, v := range verdictHist {
+				m[k] = v
+			}
+			return map[string]interface{}{"verdict_hist": m}
+		},
 	})
 }
